@@ -210,6 +210,10 @@ def run_case(ctx, desc):
                 trainers[ti].clear()
                 for cn in seen[ti]:
                     seen[ti][cn] = 0
+                for cn, mn, mon in slots(ti):
+                    ctx.count("clear_checks")
+                    if mon.peek() is not None:
+                        return ctx.violation("clear.monitor_not_cleared", f"after trainer.clear() monitor '{mn}' of {cn} still holds data", rdesc)
             elif k == "drop_trainer":
                 ctx.case(f"drop_trainer/{tk}/n{len(reg[ti])}")
                 trainers[ti] = None
